@@ -104,6 +104,29 @@ theorem applyIns_bucketMap (float : Bool) (sA sU : List Span) (B : List Int)
     simp only [hne, Bool.false_eq_true, if_false] at h
     exact (insert_bucketMap float sA sU B hU xs (by omega) ins hp hpos out h).2
 
+theorem weave_mem (i : Nat) (xs : List Int) (P : List Nat) : ∀ v ∈ weave i xs P, v = 0 ∨ v ∈ xs := by
+  fun_induction weave i xs P <;> intro v hv <;> simp_all <;> grind
+
+/-- float flavour (absolute values): recoding only adds zeros -/
+theorem applyIns_mem (xs : List Int) (n : Nat) (ins : List Insert) (out : List Int) (hp : AllPos ins)
+    (h : applyIns true xs n ins = .ok out) : ∀ v ∈ out, v = 0 ∨ v ∈ xs := by
+  unfold applyIns at h
+  by_cases he : ins.isEmpty = true
+  · simp [he, pure, Except.pure] at h; subst h; exact fun v hv => Or.inr hv
+  · simp only [he, Bool.false_eq_true, if_false, Bool.not_true, insert] at h
+    cases hr : insertLoop false xs.length 0 0 xs ins with
+    | error e => simp [hr] at h
+    | ok r =>
+      simp only [hr] at h
+      split at h
+      · cases h
+      · cases h
+        have hw := insertLoop_abs_weave _ _ _ _ _ _ hp hr
+        intro v hv
+        rcases List.mem_append.1 hv with hv | hv
+        · rw [hw] at hv; exact weave_mem _ _ _ v hv
+        · exact Or.inl (List.eq_of_mem_replicate hv)
+
 /-- What one side of a recoding step knows about its inserts. `A` = chunk layout, `B` = histogram layout. -/
 structure SidePlan (A B : List Int) (f b : List Insert) : Prop where
   fpos : AllPos f
